@@ -124,7 +124,7 @@ def verify_feed(run, tier):
                 x = iterable.elem(k)
                 sink = it.lookup('$yield', fr)
                 it.assign(stmt.target, x, fr)
-                it.exec_block(stmt.body, fr)
+                it.exec_loop_body(stmt.body, fr)
                 state['yielded'] = list(sink.items)
                 state['x'] = x
                 raise pathsmod.PathCut('one step')
@@ -137,7 +137,7 @@ def verify_feed(run, tier):
                     lst = it.lookup('frames', fr)
                     before = len(lst.items)
                     it.assign(stmt.target, f, fr)
-                    it.exec_block(stmt.body, fr)
+                    it.exec_loop_body(stmt.body, fr)
                     new = lst.items[before:]
                     state['frame_step'] = (f, new)
                     frame_obligations(ctx, prefix, state, sess)
@@ -153,7 +153,7 @@ def verify_feed(run, tier):
                     img = iterable.elem(j)
                     n0 = len(calls)
                     it.assign(stmt.target, img, fr)
-                    it.exec_block(stmt.body, fr)
+                    it.exec_loop_body(stmt.body, fr)
                     ok = len(calls) == n0 + 1 and calls[-1][0] is img.fields['load_addr'] and calls[-1][1] is img.fields['uuid']
                     ctx.oblige(prefix + '/launch.announces-each-image', z3.BoolVal(ok))
                     raise pathsmod.PathCut('image step')
